@@ -240,6 +240,9 @@ def random_strings(rng, enc, long_ok):
         n = rng.choice([0, 0, 1, 2, 3, rng.randint(0, 12),
                         rng.randint(50, 300) if long_ok and rng.random() < 0.3 else 4])
         out.append(''.join(chr(random_cp(rng, enc)) for _ in range(n)))
+    if out and ENCODINGS[enc][0] != 'latin-1' and rng.random() < 0.15:
+        # the text itself begins with U+FEFF (a character like any other, not a signature)
+        out[0] = rng.choice(['\ufeff', '\ufeff\ufeff']) + out[0]
     return out
 
 
